@@ -211,18 +211,27 @@ pub fn run_history(rng: &mut Rng, o: &Opts, out: &mut Out, hist: usize) {
             Err(e) => out.oracle.push(format!("variant-open variant={} error={}", v, e.description)),
         }
     }
+    crate::watch::new_history();
     out.cases.push(format!("db reset {}", o.rev));
     out.imp.push("reset".into());
     let mut log: Vec<String> = vec![];
     let mut triggered = false;
+    let mut hash_seen: std::collections::BTreeSet<String> = Default::default();
+    let (mut hash_cap, mut hash_up, mut hash_down) = (64u64, 0u64, 0u64);
     let n_steps = 1 + rng.below(o.steps as u64) as usize;
     for si in 0..n_steps {
+        crate::watch::begin_aux("harness read: search elements / select all aliases / select indexes");
         let live = refresh_live(&db);
+        crate::watch::end();
         let roll = rng.below(100);
         let p = o.profile;
         let txn_share = match p { Profile::Txn => 45, Profile::Search => 0, _ => 8 };
         let select_share = match p { Profile::Search => 55, Profile::Txn => 5, _ => 22 };
-        let step = if roll < txn_share {
+        let step = if p == Profile::Big {
+            if si < 4 { Step::Exec(gen_big_build(rng, &live, si)) }
+            else if rng.chance(1, 10) { Step::Exec(gen_mut(rng, &live, Profile::Graph)) }
+            else { Step::Exec(Q::SearchQ(Box::new(gen_big_search(rng, &live)))) }
+        } else if roll < txn_share {
             let k = rng.range(1, 5) as usize;
             let qs: Vec<Q> = (0..k).map(|_| if rng.chance(1, 6) { gen_select(rng, &live, p) } else { gen_mut(rng, &live, p) }).collect();
             Step::Txn(rng.chance(if p == Profile::Txn { 3 } else { 1 }, 5), qs)
@@ -233,8 +242,21 @@ pub fn run_history(rng: &mut Rng, o: &Opts, out: &mut Out, hist: usize) {
         };
         let line = show_step(&step);
         let is_txn_or_mut = match &step { Step::Exec(q) => q.is_mut(), Step::Txn(..) => true, _ => false };
+        crate::watch::begin_aux("harness read: full dump");
         let before = if is_txn_or_mut { Some(show_obs(&observe(&db), true)) } else { None };
+        crate::watch::begin(&line);
         let res = exec_step(&mut db, &step);
+        crate::watch::end();
+        if o.profile == Profile::Hash {
+            // C19 coverage: distinct hashed keys used and (estimated) capacity changes of the alias map
+            for a in &live.aliases { hash_seen.insert(a.clone()); }
+            let na = live.aliases.len() as u64;
+            let before_cap = hash_cap;
+            while na > hash_cap * 15 / 16 { hash_cap *= 2; }
+            while hash_cap > 64 && na <= hash_cap * 7 / 16 { hash_cap /= 2; }
+            if hash_cap > before_cap { hash_up += 1; out.bump("hash:alias-map-grows"); }
+            if hash_cap < before_cap { hash_down += 1; out.bump("hash:alias-map-shrinks"); }
+        }
         out.cases.push(line.clone());
         out.imp.push(res.clone());
         log.push(line.clone());
@@ -307,6 +329,12 @@ pub fn run_history(rng: &mut Rng, o: &Opts, out: &mut Out, hist: usize) {
             }
             others = next;
         }
+    }
+    if o.profile == Profile::Hash {
+        // non-trivial for C19 = the history used >= 192 distinct aliases and crossed a capacity boundary both ways
+        triggered = hash_seen.len() >= 192 && hash_up >= 1 && hash_down >= 1;
+        if hash_seen.len() >= 192 { out.bump("hash:history-with->=192-distinct-aliases"); }
+        if hash_up >= 1 && hash_down >= 1 { out.bump("hash:history-crossing-capacity-both-ways"); }
     }
     if triggered { out.nontrivial += 1; }
     if out.samples.len() < 3 && !log.is_empty() {
